@@ -83,7 +83,7 @@ theorem getD_set_self {β : Type} (l : List β) (i : Nat) (v d : β) (h : i < l.
   simp [List.getD, h]
 
 theorem getD_set_ne {β : Type} (l : List β) (i j : Nat) (v d : β) (h : i ≠ j) : (l.set i v).getD j d = l.getD j d := by
-  simp [List.getD, List.getElem?_set, h]
+  simp [List.getD, h]
 
 theorem set_of_length_le {β : Type} (l : List β) (i : Nat) (v : β) (h : l.length ≤ i) : l.set i v = l :=
   List.set_eq_of_length_le h
